@@ -51,13 +51,54 @@ def finite_flush_exempt(cx, fn):
     return FINITE_FLUSH.get(stable_label(cx, fn))
 
 
+def _canon(F):
+    """private types that rule tables name, recognised by role so that renaming them does not disturb the tables:
+    actual ADT path -> the name the tables use. Only consulted when the tabled name no longer exists."""
+    c = getattr(F, '_canon_map', None)
+    if c is not None:
+        return c
+    c = {}
+    try:
+        want = ['ops::merge_all::InnerObserver', 'ops::merge_all::InnerObserverThreads', 'ops::merge_all::OutsideObserver',
+                'ops::merge_all::OutsideObserverThreads', 'ops::merge_all::ObserverData']
+        if any(w not in F.adts for w in want):
+            here = {p: a for p, a in F.adts.items() if str(a.get('span', '')).startswith('src/ops/merge_all.rs')}
+            obs = set()
+            for im in F.impls_of('observer::Observer'):
+                t = F.ty(F.strip_refs(im['self']))
+                if t['k'] == 'adt' and t['p'] in here:
+                    obs.add(t['p'])
+            found = {}
+            for p, a in here.items():
+                ftys = [F.tystr(f['t']) for v in a['variants'] for f in v['fields']]
+                if p in obs:
+                    if any('MultiSubscriptionThreads' in x for x in ftys):
+                        found.setdefault('ops::merge_all::OutsideObserverThreads', []).append(p)
+                    elif any('MultiSubscription' in x for x in ftys):
+                        found.setdefault('ops::merge_all::OutsideObserver', []).append(p)
+                    elif any('MutArc' in x for x in ftys):
+                        found.setdefault('ops::merge_all::InnerObserverThreads', []).append(p)
+                    elif any('MutRc' in x for x in ftys):
+                        found.setdefault('ops::merge_all::InnerObserver', []).append(p)
+                elif any('VecDeque' in x for x in ftys):
+                    found.setdefault('ops::merge_all::ObserverData', []).append(p)
+            for canon, ps in found.items():
+                if canon not in F.adts and len(ps) == 1:
+                    c[ps[0]] = canon
+                    F.adts[canon] = F.adts[ps[0]]
+    except Exception:
+        c = {}
+    F._canon_map = c
+    return c
+
+
 def type_tag(F, ti):
     """generic-free tag of a type: ADT paths only, MutRc/MutArc/Option/Box wrappers kept"""
     t = F.ty(F.strip_refs(ti))
     if t['k'] == 'adt':
         if t['p'] in ('rc::MutRc', 'rc::MutArc', 'std::option::Option', 'std::boxed::Box') and t['a']:
             return '%s<%s>' % (t['p'].split('::')[-1], type_tag(F, t['a'][0]))
-        return t['p']
+        return _canon(F).get(t['p'], t['p'])
     if t['k'] == 'param':
         return '_'
     if t['k'] == 'dyn':
